@@ -56,6 +56,20 @@ pub fn family(th: bool) -> Vec<(String, Envelope)> {
         }
         for (part, d) in [("object", s.as_object().map(|o| bind::dg(&o))), ("predicate", s.as_predicate().map(|o| bind::dg(&o)))] { if let Some(d) = d { let t = bind::dset(&[d]); for (kind, act) in super::c02::actions() { if let Ok(x) = catch(|| s.elide_removing_set_with_action(&t, &act)) { out.push((format!("special:{sn}/{part}-{kind:?}"), base.add_assertion_envelope(x).unwrap())) } } } }
     }
+    // leaf payload classes that formatting code treats specially: long text with multi-byte characters at every offset around the truncation
+    // lengths, long byte strings, large arrays / maps, deep tags
+    for off in 28..=46usize { for ch in ["é", "好", "👍"] {
+        let t = format!("{}{}{}", "x".repeat(off), ch, "y".repeat(12));
+        out.push((format!("text:{off}x+{ch}"), Envelope::new(t.clone())));
+        if off % 3 == 0 { out.push((format!("text-object:{off}x+{ch}"), Envelope::new("s").add_assertion(t.clone(), t.clone()).add_assertion("k", Envelope::new(t).elide()))) }
+    } }
+    out.push(("text:cjk-60".into(), Envelope::new("好".repeat(60))));
+    out.push(("text:empty".into(), Envelope::new("")));
+    out.push(("bytes:300".into(), Envelope::new(CBOR::to_byte_string(vec![0xA5u8; 300]))));
+    out.push(("array:200".into(), Envelope::new((0..200u32).collect::<Vec<u32>>())));
+    out.push(("map:40".into(), Envelope::new({ let mut m = Map::new(); for i in 0..40 { m.insert(i, format!("v{i}")); } m })));
+    out.push(("tags:nested-12".into(), Envelope::new({ let mut c = CBOR::from("core"); for t in 0..12u64 { c = CBOR::to_tagged_value(100 + t, c) } c })));
+    out.push(("float:nan".into(), Envelope::new(f64::NAN))); out.push(("int:min".into(), Envelope::new(i64::MIN))); out.push(("date:far-future".into(), Envelope::new(dcbor::Date::from_timestamp(253402300799.0))));
     // decode-only shapes
     for (i, m) in families::decode_only().iter().enumerate() { out.push((format!("decode-only{i}:{}", m.show()), bind::build_route(m, bind::Route::Decode))) }
     // envelopes ACCEPTED by the decoder from the structural mutation family of C06 (adversarially decoded ones)
@@ -83,6 +97,9 @@ pub fn ops() -> Vec<Op> {
     op!("diagnostic", |e| { e.diagnostic(); }); op!("diagnostic_annotated", |e| { e.diagnostic_annotated(); }); op!("hex", |e| { e.hex(); });
     op!("ur_string", |e| { let u = e.ur_string(); let _ = Envelope::from_ur_string(u); });
     op!("debug/display", |e| { let _ = format!("{:?}", e); let _ = format!("{}", e); });
+    op!("tree_format_opt(no context)", |e| { e.tree_format_opt(false, None); e.tree_format_opt(true, None); });
+    op!("summary(short)", |e| { let ctx = bc_envelope::FormatContext::default(); for n in [0usize, 1, 5, 10, 40] { let _ = e.summary(n, &ctx); } });
+    op!("format_opt(no context)", |e| { e.format_opt(None); });
     // digests / walk
     op!("digests", |e| { e.digests(0); e.digests(1); e.digests(2); e.deep_digests(); e.shallow_digests(); }); op!("structural_digest", |e| { e.structural_digest(); }); op!("elements_count", |e| { e.elements_count(); });
     op!("walk", |e| { let vv = |_e: Envelope, _l: usize, _ed: EdgeType, _p: Option<()>| -> Option<()> { None }; e.walk(false, &vv); e.walk(true, &vv); });
@@ -177,12 +194,12 @@ pub fn run(ctx: &Ctx) -> i32 {
                 let opfam = o.name.split('[').next().unwrap().split('<').next().unwrap().to_string();
                 acc.outcome(format!("panic:{}@{}", opfam, p.loc));
                 acc.viol(format!("C16|at={}|{}{}", p.site, p.class(), if p.detail().is_empty() { String::new() } else { format!(":{}", p.detail()) }), format!("{} panicked at {}: {}", o.name, p.loc, p.msg.chars().take(160).collect::<String>()), format!("env{ei}:{name}/op:{}", o.name),
-                    json!({"operation": o.name, "envelope": hex::encode(e.to_cbor_data()), "notation": e.format_flat().chars().take(200).collect::<String>(), "panic_site": p.loc, "message": p.msg}));
+                    json!({"operation": o.name, "envelope": hex::encode(e.to_cbor_data()), "notation": crate::report::ff(&e).chars().take(200).collect::<String>(), "panic_site": p.loc, "message": p.msg}));
             }
         }
         if any { acc.inc("envelopes_with_a_panic") }
         acc.nontrivial(&bind::observe(e));
-        if ei % 997 == (ctx.seed as usize % 997) { acc.sample(json!({"envelope": name, "notation": e.format_flat().chars().take(120).collect::<String>(), "operations_applied": ops_.len()})) }
+        if ei % 997 == (ctx.seed as usize % 997) { acc.sample(json!({"envelope": name, "notation": crate::report::ff(&e).chars().take(120).collect::<String>(), "operations_applied": ops_.len()})) }
         acc
     }).reduce(Acc::new, Acc::merge);
     // builder entry points that cannot return an error
